@@ -248,19 +248,23 @@ def sheet_walk_model(ctx):
     consts = f" MaxRows = {mr}\n MaxCols = {mc}\n"
     invs = "".join(f"INVARIANT {i}\n" for i in ("Inv_StepAgreesWithFunction", "Inv_NothingLost", "Inv_NothingInvented", "Inv_Shape"))
     cfg = f"SPECIFICATION Spec\nCONSTANTS WalkDev = {{}}\n{consts}{invs}PROPERTY Prop_Terminates\n"
-    r = run_tlc("SheetWalk", cfg, scratch=ctx.scratch, expect_fail=True, heap="8g", workers=16, timeout=3000)
+    from ..tlc import run_tlc_many
+    sdevs = sorted(SHEET_DEV.values())
+    # spec -> code: the grid universe (2 x 3 exhaustively; 3 x 3 sampled in thorough)
+    dump = ctx.scratch / f"sheetgen-{mr}-{mc}.dump"
+    res = run_tlc_many(
+        [("SheetWalk", cfg, dict(scratch=ctx.scratch, expect_fail=True, heap="8g", workers=8, timeout=3000))]
+        + [("SheetWalk", cfg.replace("WalkDev = {}", f'WalkDev = {{"{dv}"}}').replace(f" MaxRows = {mr}", " MaxRows = 2"),
+            dict(scratch=ctx.scratch, expect_fail=True, heap="4g", workers=4)) for dv in sdevs]
+        + [("SheetWalk", f"SPECIFICATION GenSpec\nCONSTANTS WalkDev = {{}}\n{consts}", dict(scratch=ctx.scratch, dump=dump, heap="6g", workers=4))])
+    r, rg = res[0], res[-1]
     ctx.ev.tlc(f"SheetWalk {mr}x{mc}: the modelled sheet reader keeps every cell in place and terminates", r)
     if r.violated:
         ctx.v.violation(what="SheetWalk.tla: the strict sheet-reader model violates its own theorems", observed=r.output[-1500:])
-    for dv in sorted(SHEET_DEV.values()):
-        rs = run_tlc("SheetWalk", cfg.replace("WalkDev = {}", f'WalkDev = {{"{dv}"}}').replace(f" MaxRows = {mr}", " MaxRows = 2"),
-                     scratch=ctx.scratch, expect_fail=True, heap="8g")
+    for dv, rs in zip(sdevs, res[1:-1]):
         ctx.ev.tlc(f"SheetWalk sensitivity: as-built step {dv} must violate a theorem", rs, note="expected violation")
         if not rs.violated:
             raise MachineryError(f"SheetWalk sensitivity run for {dv} did not fail")
-    # spec -> code: the grid universe (2 x 3 exhaustively; 3 x 3 sampled in thorough)
-    dump = ctx.scratch / f"sheetgen-{mr}-{mc}.dump"
-    rg = run_tlc("SheetWalk", f"SPECIFICATION GenSpec\nCONSTANTS WalkDev = {{}}\n{consts}", scratch=ctx.scratch, dump=dump, heap="8g")
     ctx.ev.tlc(f"SheetWalk GenSpec {mr}x{mc}: input grids", rg)
     grids = sorted((from_tla(st["src"]) for st in iter_dump(dump)), key=lambda g: json.dumps(g))
     if len(grids) != rg.distinct:
@@ -339,17 +343,18 @@ def ods_walk_model(ctx):
     consts = " MaxRowElems = 2\n MaxCellElems = 2\n"
     invs = "".join(f"INVARIANT {i}\n" for i in ("Inv_StepAgreesWithFunction", "Inv_NothingLost", "Inv_NothingInvented", "Inv_Rect"))
     cfg = f"SPECIFICATION Spec\nCONSTANTS WalkDev = {{}}\n Big = 2\n{consts}{invs}PROPERTY Prop_Terminates\n"
-    r = run_tlc("OdsWalk", cfg, scratch=ctx.scratch, expect_fail=True, heap="8g", workers=16, timeout=3000)
+    from ..tlc import run_tlc_many
+    dump = ctx.scratch / "odsgen.dump"
+    r, rs, rg = run_tlc_many([
+        ("OdsWalk", cfg, dict(scratch=ctx.scratch, expect_fail=True, heap="8g", workers=8, timeout=3000)),
+        ("OdsWalk", cfg.replace("WalkDev = {}", 'WalkDev = {"Ods!LargeGapCollapsed"}'), dict(scratch=ctx.scratch, expect_fail=True, heap="4g", workers=4)),
+        ("OdsWalk", f"SPECIFICATION GenSpec\nCONSTANTS WalkDev = {{}}\n Big = 100\n{consts}", dict(scratch=ctx.scratch, dump=dump, heap="6g", workers=4))])
     ctx.ev.tlc("OdsWalk (Big = 2): the modelled ODS reader keeps every source position in place and terminates", r)
     if r.violated:
         ctx.v.violation(what="OdsWalk.tla: the strict ODS reader model violates its own theorems", observed=r.output[-1500:])
-    rs = run_tlc("OdsWalk", cfg.replace("WalkDev = {}", 'WalkDev = {"Ods!LargeGapCollapsed"}'), scratch=ctx.scratch,
-                 expect_fail=True, heap="8g")
     ctx.ev.tlc("OdsWalk sensitivity: the as-built collapse of long empty runs must violate a theorem", rs, note="expected violation")
     if not rs.violated:
         raise MachineryError("OdsWalk sensitivity run did not fail")
-    dump = ctx.scratch / "odsgen.dump"
-    rg = run_tlc("OdsWalk", f"SPECIFICATION GenSpec\nCONSTANTS WalkDev = {{}}\n Big = 100\n{consts}", scratch=ctx.scratch, dump=dump, heap="8g")
     ctx.ev.tlc("OdsWalk GenSpec (Big = 100): input sheets", rg)
     sheets = sorted((from_tla(st["src"]) for st in iter_dump(dump)), key=lambda g: json.dumps(g, sort_keys=True))
     if len(sheets) != rg.distinct:
